@@ -1,6 +1,6 @@
 (* Case runner for C15: decodes harness cases, runs the model, judges the implementation. *)
 From Coq Require Import QArith Qround Qabs.
-From PV Require Import M_Measure S_Measure Gen.Gen_UnitTable.
+From PV Require Import M_Measure M_MeasureF S_Measure Gen.Gen_UnitTable.
 Open Scope Z_scope.
 
 Definition of_Q (q : Q) : term := let r := Qred q in TL [TZ (Qnum r); TZ (Zpos (Qden r))].
@@ -27,31 +27,82 @@ Definition near_auto (x : Z) (from : string) : bool :=
 Definition near_label (x : Z) (from to : string) : bool :=
   near_half (fst (scale uts x from to)).
 
+Fixpoint trim_spaces (s : string) : string :=
+  match s with
+  | String a r => if Ascii.eqb a " " then trim_spaces r else s
+  | EmptyString => s
+  end.
+
+(* internal/report: New's format closure (divide_by ratio, truncation toward zero) and printText's
+   rows for a profile of single-frame samples with pairwise distinct |value|: entries by decreasing
+   |flat| (Nodes.Sort FlatNameOrder), total = sum of |value| (computeTotal), running flat sum *)
+Fixpoint insert_abs (e : string * Z) (l : list (string * Z)) : list (string * Z) :=
+  match l with
+  | [] => [e]
+  | h :: r => if (Z.abs (snd h) <? Z.abs (snd e))%Z then e :: l else h :: insert_abs e r
+  end.
+Definition sort_abs (l : list (string * Z)) : list (string * Z) := fold_right insert_abs [] l.
+
+Definition ratio_value (ratio : Q) (v : Z) : Z :=
+  if Qle_bool ratio 0 || Qeq_bool ratio 1 then v
+  else trunc_Z (fmul (of_Z v) (of_Q_dyadic ratio)).
+
+Fixpoint top_rows_loop (rows : list (string * Z)) (sum total : Z) (unit out : string) (ratio : Q) : list term :=
+  match rows with
+  | [] => []
+  | (name, v) :: r =>
+      let lbl := scaled_label_f uts (ratio_value ratio v) unit out in
+      let sum' := (sum + v)%Z in
+      TL [TS lbl; TS (trim_spaces (percentage_fl v total)); TS (trim_spaces (percentage_fl sum' total));
+          TS lbl; TS (trim_spaces (percentage_fl v total)); TS name]
+      :: top_rows_loop r sum' total unit out ratio
+  end.
+
+(* Report.selectOutputUnit: with -unit=minimum one unit is chosen for the whole report, from the
+   smallest non-zero entry and the total (both after divide_by) *)
+Definition select_output_unit (es : list (string * Z)) (total : Z) (unit out : string) (ratio : Q) : string :=
+  if negb (String.eqb out "minimum") || (match es with [] => true | _ => false end) then out else
+  let mn := fold_right (fun e a => let x := Z.abs (snd e) in
+                                   if (0 <? x)%Z && ((a =? 0)%Z || (x <? a)%Z) then x else a) 0%Z es in
+  let mn := if (mn =? 0)%Z then total else mn in
+  let mn := ratio_value ratio mn in
+  let mx := ratio_value ratio total in
+  let u1 := snd (scale_f uts mn unit "minimum") in
+  let u2 := snd (scale_f uts mx unit "minimum") in
+  let u := if negb (String.eqb u1 u2) && (mn * 100 <? mx)%Z
+           then snd (scale_f uts (100 * mn)%Z unit "minimum") else u1 in
+  if String.eqb u "" then unit else u.
+
+Definition top_rows (es : list (string * Z)) (unit out : string) (ratio : Q) : list term :=
+  let total := fold_right (fun e a => (Z.abs (snd e) + a)%Z) 0%Z es in
+  top_rows_loop (sort_abs es) 0%Z total unit (select_output_unit es total unit out ratio) ratio.
+
+(* the implementation is compared, bit for bit, with the float model M_MeasureF (same operations in
+   the same order as measurement.go); the exact-rational model M_Measure is what the specification
+   below and the theorems of P_C15 are about *)
 Definition run_C15 (i : term) : term :=
   let op := gs (gn i 0) in
   if String.eqb op "scale" then
-    let '(q, u) := scale uts (gz (gn i 1)) (gs (gn i 2)) (gs (gn i 3)) in TL [of_Q q; TS u]
+    let '(v, u) := scale_f uts (gz (gn i 1)) (gs (gn i 2)) (gs (gn i 3)) in
+    if is_finite v then TL [of_Q (F64.to_Q v); TS u] else TL [TL [TS "nonfinite"]; TS u]
   else if String.eqb op "label" then
-    TS (scaled_label uts (gz (gn i 1)) (gs (gn i 2)) (gs (gn i 3)))
+    TS (scaled_label_f uts (gz (gn i 1)) (gs (gn i 2)) (gs (gn i 3)))
   else if String.eqb op "mono" then
-    TL [TS (label uts (gz (gn i 1)) (gs (gn i 3))); TS (label uts (gz (gn i 2)) (gs (gn i 3)))]
-  else if String.eqb op "pct" then
-    let r := pct_ratio (gz (gn i 1)) (gz (gn i 2)) in
-    match pct_class r with
-    | 0%Z => TS "  100%"
-    | 1%Z => TS (percentage_f r)
-    | _ => TL [TS "g"]
-    end
+    TL [TS (label_f uts (gz (gn i 1)) (gs (gn i 3))); TS (label_f uts (gz (gn i 2)) (gs (gn i 3)))]
+  else if String.eqb op "pct" then TS (percentage_fl (gz (gn i 1)) (gz (gn i 2)))
+  else if String.eqb op "toptext" then
+    TL [TS "ok"; TL (top_rows (map (fun e => (gs (gn e 0), gz (gn e 1))) (gl (gn i 1))) (gs (gn i 2)) (gs (gn i 3)) (to_Q (gn i 4)))]
   else if String.eqb op "common" then
-    match common_value_type uts (map (fun t => (gs (gn t 0), gs (gn t 1))) (gl (gn i 1))) with
+    match common_value_type_f uts (map (fun t => (gs (gn t 0), gs (gn t 1))) (gl (gn i 1))) with
     | CvtNil => TL [TS "nil"]
     | CvtErr => TL [TS "err"]
     | CvtOk (t, u) => TL [TS "ok"; TS t; TS u]
     end
   else TL [TS "unknown-op"].
 
-(* classes: 17 = F17 (MinInt64 is never auto-scaled); 900.. = comparisons skipped because the
-   exact value is within float noise of a rounding/selection boundary *)
+(* classes: 17 = F17 (MinInt64 is never auto-scaled); 900.. = the exact value is within float noise
+   of a rounding/selection boundary: there the SPECIFICATION (stated over exact rationals) is not
+   applied to the float result; the correspondence with the float model is exact everywhere *)
 Definition cls_C15 (i : term) : list Z :=
   let op := gs (gn i 0) in
   let x := gz (gn i 1) in
@@ -110,20 +161,8 @@ Definition label_close (a b : string) : bool :=
    let '(nb, ub) := split_num (trim_prefix " " (trim_prefix " " b)) "" in
    String.eqb ua ub && Qle_bool (10000000000000 # 1) (Qabs (parse_dec na)) && qclose (parse_dec na) (parse_dec nb)).
 
-Definition eqv_C15_in (i m o : term) : bool :=
-  let op := gs (gn i 0) in
-  if skipped i then true
-  else if String.eqb op "scale" then
-    String.eqb (gs (gn m 1)) (gs (gn o 1)) && qclose (to_Q (gn m 0)) (to_Q (gn o 0))
-  else if String.eqb op "label" then label_close (gs m) (gs o)
-  else if String.eqb op "mono" then
-    label_close (gs (gn m 0)) (gs (gn o 0)) && label_close (gs (gn m 1)) (gs (gn o 1))
-  else if String.eqb op "pct" then
-    match m with
-    | TL [TS "g"] => true  (* %5.2g rendering is not modelled; its value is judged by the spec *)
-    | _ => label_close (gs m) (gs o)
-    end
-  else term_eqb m o.
+(* exact: the float model reproduces float64 arithmetic and fmt's rounding *)
+Definition eqv_C15_in (i m o : term) : bool := term_eqb m o.
 
 (* physical value (in base units) a printed label denotes when read back with its unit *)
 Definition label_phys (ut : unit_type) (lbl : string) : option Q :=
@@ -141,10 +180,63 @@ Definition label_unit_factor (ut : unit_type) (lbl : string) : Q :=
   | None => 1
   end.
 
+(* "multiplies by the exact ratio of the units", at float64's resolution: in the families whose
+   factors are whole numbers (bytes, time) the product value*factor is exact below 2^53, so the result
+   must be THE float nearest to the exact quotient (one correctly rounded division), whichever target
+   the mode picked *)
+Definition is_int_Q (q : Q) : bool := (Zpos (Qden (Qred q)) =? 1)%Z.
+Definition rn_exact_ok (x : Z) (from : string) (o : term) : bool :=
+  match family_of uts from with
+  | Some (ut, fu) =>
+      if is_int_Q (u_factor fu) then
+        let v := (Z.abs x * Qnum (Qred (u_factor fu)))%Z in
+        if (x =? min_int64)%Z || (2 ^ 53 <? v)%Z then true else
+        match find (fun w => String.eqb (u_name w) (gs (gn o 1))) (ut_default ut :: ut_units ut) with
+        | Some w => let r := fdiv (of_Z v) (uf w) in
+                    let r := if (x <? 0)%Z then fopp r else r in
+                    term_eqb (gn o 0) (of_Q (F64.to_Q r))
+        | None => false
+        end
+      else true
+  | None => true
+  end.
+
+(* a printed percentage ("33.33", "0.33", "3.3e-06", "100", "0") denotes |v/t|*100 within its printed
+   precision: two decimals from 1% up, two significant digits below *)
+Fixpoint split_at (c : Ascii.ascii) (s acc : string) : string * option string :=
+  match s with
+  | String a r => if Ascii.eqb a c then (acc, Some r) else split_at c r (acc ++ String a "")
+  | EmptyString => (acc, None)
+  end.
+Definition parse_pct (s : string) : Q :=
+  match split_at "e" s "" with
+  | (m, Some ex) => parse_dec m / inject_Z (10 ^ digits_val (trim_prefix "-" ex) 0%Z)
+  | (m, None) => parse_dec m
+  end.
+Definition pct_ok (v t : Z) (s : string) : bool :=
+  let r := pct_ratio v t in
+  let s := trim_suffix "%" (trim_spaces s) in
+  if String.eqb s "100" then Qle_bool (Qabs (r - 100)) ((5 # 100) + eps * 100)
+  else Qle_bool (Qabs (parse_pct s - r)) (if Qle_bool 1 r then (1 # 199) + eps * r else r * (1 # 19) + eps).
+
+Fixpoint rows_pct_ok (es : list (string * Z)) (rows : list term) (sum total : Z) : bool :=
+  match rows with
+  | [] => true
+  | row :: r =>
+      match find (fun e => String.eqb (fst e) (gs (gn row 5))) es with
+      | Some (_, v) =>
+          let sum' := (sum + v)%Z in
+          pct_ok v total (gs (gn row 1)) && pct_ok sum' total (gs (gn row 2)) && pct_ok v total (gs (gn row 4))
+          && rows_pct_ok es r sum' total
+      | None => false
+      end
+  end.
+
 Definition spec_C15 (i o : term) : bool :=
   let op := gs (gn i 0) in
   let x := gz (gn i 1) in
-  if skipped i then true
+  if String.eqb op "scale" && negb (rn_exact_ok x (gs (gn i 2)) o) then false
+  else if skipped i then true
   else if String.eqb op "scale" then
     scale_spec uts x (gs (gn i 2)) (gs (gn i 3)) (to_Q (gn o 0)) (gs (gn o 1))
   else if String.eqb op "label" then
@@ -180,6 +272,12 @@ Definition spec_C15 (i o : term) : bool :=
     | 1%Z => Qle_bool (Qabs (parse_dec (trim_suffix "%" (trim_prefix " " (trim_prefix " " (gs o)))) - r)) ((1 # 199) + eps * r)
     | _ => true
     end
+  else if String.eqb op "toptext" then
+    (* every entry is listed once, and its flat%, running sum% and cum% are the absolute ratios of
+       the UNSCALED values to the total of absolute values, whatever unit and divide_by are in force *)
+    let es := map (fun e => (gs (gn e 0), gz (gn e 1))) (gl (gn i 1)) in
+    String.eqb (gs (gn o 0)) "ok" && (List.length (gl (gn o 1)) =? List.length es)%nat &&
+    rows_pct_ok es (gl (gn o 1)) 0%Z (fold_right (fun e a => (Z.abs (snd e) + a)%Z) 0%Z es)
   else if String.eqb op "common" then
     (* harmonising picks the FINEST unit of the list (so that no profile loses precision): every
        input unit is a whole-or-larger multiple of the chosen one *)
